@@ -197,6 +197,7 @@ def field_order(ctx):
 
 def computed_and_replace(ctx):
     computed_field_clause(ctx)
+    computed_field_schema_clause(ctx)
     find_replace_clause(ctx)
 
 
@@ -250,6 +251,51 @@ def computed_field_clause(ctx):
         run.check(lam is not None and any(match_expr(p_, lam) is not None for p_ in pats), 'CMP',
                   where(repo, table[k]) if k in table else m.relpath, m.name + ':<module>', 'AGGREGATORS[%r] = %s' % (k, pats[0]),
                   'operation %r does not compute its documented definition (found %s)' % (k, u(lam) if lam is not None else None))
+
+
+def computed_field_schema_clause(ctx):
+    """NEW-FIELDS: the package phase declares one field per computed-field spec - the spec's own target descriptor (a copy) when it is
+    one, else {name: <target>, type: get_type(<fields of the resource>, <source names>, <operation>)} - and nothing else."""
+    run, repo = ctx.run, ctx.repo
+    from sa.paths import Enumerator as _En, RAISE as _RAISE, path_nodes as _pn
+    g0 = repo.func(P + 'add_computed_field:get_new_fields', None)
+    if g0 is None:
+        raise AnalysisError('add_computed_field: get_new_fields not found')
+    g = ctx.N(g0)
+    rets = [r for r in own_nodes(g.node) if isinstance(r, ast.Return) and r.value is not None]
+    loops = [l for l in own_nodes(g.node) if isinstance(l, ast.For) and pseudo(l.iter) == g.params[1] and isinstance(l.target, ast.Name)]
+    if len(rets) != 1 or not pseudo(rets[0].value) or len(loops) != 1:
+        raise AnalysisError('get_new_fields: `for f in fields` / returned list not found')
+    lst, f = pseudo(rets[0].value), loops[0].target.id
+    n = 0
+    for p in _En(where=g.qualname).body_paths(loops[0]):
+        if p.term == _RAISE:
+            continue
+        import builtins as _b
+        if any(isinstance(t, ast.Name) and callable(getattr(_b, t.id, None)) and not pol for t, pol in p.guards()):
+            continue        # `elif isinstance:` - a builtin function is never false; the branch is an `else`
+        n += 1
+        from sa.pathvals import PathValues as _PV
+        pv = _PV(p)
+        apps = [c.value for o_, c in pv.stmts if isinstance(c, ast.Expr) and isinstance(c.value, ast.Call)
+                and isinstance(c.value.func, ast.Attribute) and c.value.func.attr == 'append' and pseudo(c.value.func.value) == lst
+                and len(c.value.args) == 1]
+        ok = len(apps) == 1
+        if ok:
+            v = apps[0].args[0]
+            named = match_expr("dict(name=%s['target'], type=get_type(%s['schema']['fields'], %s.get('source', []), %s['operation']))"
+                               % (f, g.params[0], f, f), v) is not None
+            copied = match_expr("copy.deepcopy(%s['target'])" % f, v) is not None
+            is_str = None
+            for t, pol in pv.guards:
+                if match_expr("isinstance(%s['target'], str)" % f, t) is not None:
+                    is_str = pol
+            ok = (named and is_str is True) or (copied and is_str is not True)
+        run.check(ok, 'CMP', where(repo, loops[0]), g.qualname,
+                  'one new field per spec: {name, type=get_type(...)} for a target name, a copy of the target descriptor otherwise',
+                  'the package phase does not declare exactly one field per computed-field spec (named by its target, typed by '
+                  'get_type): the rows carry a field the schema does not declare, or under another type', path=p.describe())
+    run.floor('CMP', n, 2, 'paths of get_new_fields')
 
 
 def find_replace_clause(ctx):
